@@ -777,7 +777,7 @@ class AnsiString:
             obj = self.copy()
 
             # This will allow a colon to be a fill character based on the expected format
-            format_match = re.match(r'(^.?[-\+]?[<>\^]?[0-9]*)(:.*)?$', format_spec)
+            format_match = re.match(r'(^(?:.?[-\+]?[<>\^])?[0-9]*)(:.*)?$', format_spec)
 
             if not format_match:
                 format_parts = [format_spec]
